@@ -126,6 +126,7 @@ struct Task {
     uint64_t ops_since_poll = 0;          // XCM data-path calls (send/receive/finish/accept) since the last poll() returned
     bool spin_blocked = false;            // parked by spin compression (descriptor ready, nothing changes)
     uint64_t spins = 0;
+    uint64_t same_polls = 0;              // consecutive polls of the same descriptors, ready, with the kernel state unchanged
     void *user = nullptr;
 };
 
@@ -146,6 +147,7 @@ struct Sim {
     uint64_t switches = 0;
     double yield_p = 0.2;
     bool stopping = false;
+    bool unwinding = false;   // stop_and_join in progress: waits are interrupted, connections torn down, nothing is judged
     bool verbose = false;
     EndReason end_reason = EndReason::ALL_DONE;
     std::vector<std::unique_ptr<Task>> tasks;
